@@ -50,49 +50,47 @@ def run(tier):
                 Model.enqueue_event, Model.delete_agents, Model.configure_agents, Model.create_agent, Model.agent)
     jobs, meta = [], []
 
-    def add(h, e, first=-1, second=-1, estep=-1, wmax=0, smax=2, dmax=2, initial=2):
-        jobs.append(("_routing", tmo, {"C11_HLEN": str(h), "C11_ELEN": str(e), "C11_FIRST": str(first),
-                                       "C11_SECOND": str(second), "C11_ESTEP": str(estep), "C11_WMAX": str(wmax),
-                                       "C11_SMAX": str(smax), "C11_DMAX": str(dmax), "C11_INITIAL": str(initial)}))
+    def add(h, e, first=-1, second=-1, estep=-1, wmax=0, smax=2, dmax=2, initial=2, req=True, tmo=None):
+        jobs.append(("_routing", tmo or base_tmo, {"C11_HLEN": str(h), "C11_ELEN": str(e), "C11_FIRST": str(first),
+                                                   "C11_SECOND": str(second), "C11_ESTEP": str(estep), "C11_WMAX": str(wmax),
+                                                   "C11_SMAX": str(smax), "C11_DMAX": str(dmax), "C11_INITIAL": str(initial)}, req))
         meta.append(("routing", h, e, first))
-    if tier == "quick":
-        tmo = 240
-        add(0, 1), add(1, 1)
-        for st in range(2):
-            add(0, 2, estep=st, smax=1, dmax=1)
-            for f in range(3):
-                add(1, 2, f, estep=st, smax=1, dmax=1, initial=1)
-        # population changes BETWEEN steps (before steps 0..2), interleaved with the sends
+    # the claim (both tiers): these slices must all be confirmed
+    base_tmo = 240 if tier == "quick" else 480
+    add(0, 1), add(1, 1)
+    for st in range(2):
+        add(0, 2, estep=st, smax=1, dmax=1)
         for f in range(3):
-            add(1, 1, f, wmax=2)
-        for f in (0, 1):
-            for g in (0, 1):
-                for st in range(3):
-                    add(2, 1, f, g, estep=st, wmax=2, dmax=1)
-    else:
-        tmo = 2400
-        add(0, 1), add(1, 1), add(2, 1), add(0, 2), add(0, 3, estep=0), add(0, 3, estep=1), add(0, 3, estep=2)
+            add(1, 2, f, estep=st, smax=1, dmax=1, initial=1)
+    # population changes BETWEEN steps (before steps 0..2), interleaved with the sends
+    for f in range(3):
+        add(1, 1, f, wmax=2)
+    for f in (0, 1):
+        for g in (0, 1):
+            for st in range(3):
+                add(2, 1, f, g, estep=st, wmax=2, dmax=1)
+    if tier == "thorough":
+        # deeper slices under the tier's wall-time budget; what CrossHair does not finish is reported as not explored
+        deep = dict(req=False, tmo=1200)
+        add(2, 1, **deep), add(0, 2, **deep), add(0, 3, estep=0, **deep), add(0, 3, estep=1, **deep), add(0, 3, estep=2, **deep)
         for f in range(3):
-            add(1, 2, f)
-            add(2, 1, f)
-            add(1, 1, f, wmax=2)
+            add(1, 2, f, **deep)
+            add(2, 1, f, **deep)
             for g in range(3):
-                add(3, 1, f, g, initial=1)
+                add(3, 1, f, g, initial=1, **deep)
                 for st in range(3):
-                    add(2, 1, f, g, estep=st, wmax=2)
-                    add(2, 2, f, g, st, initial=1)
-    jobs.append(("_routing_twin", 60, {"C11_HLEN": "1", "C11_ELEN": "1", "C11_FIRST": "-1"}))
+                    add(2, 1, f, g, estep=st, wmax=2, **deep)
+                    add(2, 2, f, g, st, initial=1, **deep)
+    jobs.append(("_routing_twin", 60, {"C11_HLEN": "1", "C11_ELEN": "1", "C11_FIRST": "-1"}, True))
     meta.append(("twin", 1, 1, -1))
-    jobs.append(("_routing", 120, {"C11_HLEN": "2", "C11_ELEN": "1", "C11_FIRST": "-1"}))
+    jobs.append(("_routing", 120, {"C11_HLEN": "2", "C11_ELEN": "1", "C11_FIRST": "-1"}, True))
     meta.append(("canary", 2, 1, -1))
     hf = [HFILE] * (len(jobs) - 1) + [HFILE_MUT]
-    from concurrent.futures import ThreadPoolExecutor
-    with ThreadPoolExecutor(max_workers=harness.nprocs()) as ex:
-        futs = [ex.submit(chx.run_condition, p, f, t, e) for p, (f, t, e) in zip(hf, jobs)]
-        results = [f.result() for f in futs]
+    required = [j[3] for j in jobs]
+    results = chx.run_jobs([(p, f, t, e, r) for p, (f, t, e, r) in zip(hf, jobs)])
     samples, confirmed = [], 0
     from checks.ch import c11_h as H
-    for (kind, h, e, f), r in zip(meta, results):
+    for (kind, h, e, f), r, req in zip(meta, results, required):
         label = "%s history_len=%d events=%d first_op=%d" % (kind, h, e, f)
         if kind == "twin":
             if r.verdict != chx.VERDICT_CEX:
@@ -111,7 +109,7 @@ def run(tier):
             why = H.run_script([tuple(x) for x in hist], [tuple(x) for x in sends])
             rep.candidate(_sig(why), {"hist": [list(x) for x in hist], "sends": [list(x) for x in sends]}, "%s: %s" % (label, why))
         else:
-            rep.inconcl("%s: CrossHair verdict %s (%s)" % (label, r.verdict, r.message[:200]))
+            chx.unfinished(rep, label, r, req)
         if len(samples) < 8:
             samples.append({"condition": label, "verdict": r.verdict, "seconds": round(r.seconds, 1), "message": r.message[:160]})
     # part 2: floating point countdown
